@@ -146,7 +146,7 @@ func clone(p *gabi.ProofD) *gabi.ProofD {
 
 func main() {
 	if len(os.Args) < 2 {
-		hx.Fatal("usage: nr replay|d10|lifecycle ...")
+		hx.Fatal("usage: nr replay|d10|lifecycle|memo ...")
 	}
 	cmd := os.Args[1]
 	os.Args = append(os.Args[:1], os.Args[2:]...)
@@ -180,6 +180,10 @@ func main() {
 		d10(kps[0], rng, res)
 	case "lifecycle":
 		lifecycle(a, kps, rng, res)
+	case "memo":
+		memo(a, kps, rng, res)
+	case "witapi":
+		witapi(a, kps, rng, res)
 	default:
 		hx.Fatal("unknown subcommand")
 	}
